@@ -71,6 +71,13 @@ HX int h_race(int kind, int n, int T, int iters) {
 // seeding / drawing in another thread must not change this thread's sequence: returns 1 if the sequence drawn after rng(seed) is the same with and without a concurrent thread that seeds and draws
 HX int h_rng_threads(int seed, int n) {
     H_TRY
+    // (1) a fresh thread that never seeds must see the same sequence whether or not another thread has seeded before it starts
+    std::vector<double> f1(n), f2(n);
+    { std::thread t([&]() { for (int i = 0; i < n; ++i) f1[i] = randn(); }); t.join(); }
+    rng(seed);
+    { std::thread t([&]() { for (int i = 0; i < n; ++i) f2[i] = randn(); }); t.join(); }
+    for (int i = 0; i < n; ++i) if (f1[i] != f2[i]) return 0;
+    // (2) this thread's sequence after rng(seed) is not disturbed by a concurrent thread that seeds and draws
     rng(seed); arr_real a = randn(n);
     rng(seed); std::thread other([]() { rng(777); volatile double s = 0; for (int i = 0; i < 2000; ++i) s += randn(); });
     arr_real b = randn(n); other.join();
@@ -81,15 +88,17 @@ HX int h_rng_threads(int seed, int n) {
 // native stress for free functions (replay only): T threads call h_free(fk) on their own inputs; counts results that differ from the single-threaded ones
 HX int h_race_free(int fk, int n, int T, int iters) {
     H_TRY
-    const int cap = 8 * n + 64;
+    const int cap = 8 * (n + 2 * T) + 64;
+    // every thread works with its own length (per-length caches are then refilled concurrently)
+    std::vector<int> nt(T); for (int t = 0; t < T; ++t) nt[t] = (fk == 6) ? n : n + 2 * t;
     std::vector<std::vector<double>> xs(T, std::vector<double>(cap)), ref(T, std::vector<double>(cap));
-    for (int t = 0; t < T; ++t) { for (int i = 0; i < cap; ++i) xs[t][i] = std::sin(0.37 * i * (t + 1)) + 0.01 * t; h_free(fk, n, xs[t].data(), ref[t].data()); }
+    for (int t = 0; t < T; ++t) { for (int i = 0; i < cap; ++i) xs[t][i] = std::sin(0.37 * i * (t + 1)) + 0.01 * t; h_free(fk, nt[t], xs[t].data(), ref[t].data()); }
     std::atomic<int> bad{0}; std::atomic<int> go{0};
     std::vector<std::thread> th;
     for (int t = 0; t < T; ++t) th.emplace_back([&, t]() {
         std::vector<double> y(cap);
         go++; while (go.load() < T) {}
-        for (int k = 0; k < iters; ++k) { int c = h_free(fk, n, xs[t].data(), y.data()); if (c < 0 || std::memcmp(y.data(), ref[t].data(), sizeof(double) * (c > n ? n : c)) != 0) bad++; }
+        for (int k = 0; k < iters; ++k) { int c = h_free(fk, nt[t], xs[t].data(), y.data()); if (c < 0 || std::memcmp(y.data(), ref[t].data(), sizeof(double) * (c > nt[t] ? nt[t] : c)) != 0) bad++; }
     });
     for (auto& t : th) t.join();
     return bad.load();
